@@ -210,6 +210,15 @@ def known_match(prop, lhs, clause, known):
 
 def run_cases(prop, tier, seed, cfg, workdir, replay_lines=None):
     """generate cases (corpus first), run implementation + model; returns list of dict rows"""
+    import tempfile
+    scratch = tempfile.mkdtemp(prefix="whatis-verif-")   # every scratch file/tree of the harness lives here
+    try:
+        return _run_cases(prop, tier, seed, cfg, workdir, replay_lines, dict(GOENV, TMPDIR=scratch))
+    finally:
+        shutil.rmtree(scratch, ignore_errors=True)
+
+
+def _run_cases(prop, tier, seed, cfg, workdir, replay_lines, GOENV):
     cases_path = os.path.join(workdir, "cases.txt")
     t0 = time.time()
     with open(cases_path, "w") as out:
